@@ -34,6 +34,7 @@ def spec():
             "/c": {"get": {"operationId": "default_nocontent", "responses": {"200": ok, "default": {"description": "err"}}}},
             "/d": {"get": {"operationId": "default_content", "responses": {"200": ok, "default": gen.json_resp("Err", desc="err")}}},
             "/e": {"delete": {"operationId": "no_content", "responses": {"204": {"description": "gone"}}}},
+            "/h": {"get": {"operationId": "declared_unregistered", "responses": {"200": ok, "499": {"description": "client closed"}, "520": {"description": "origin error"}, "599": {"description": "timeout"}}}},
             "/g": {"post": {"operationId": "two_success", "responses": {"200": ok, "201": gen.json_resp("Err"), "202": {"description": "acc"}, "409": {"description": "conflict"}, "503": {"description": "unavailable"}}}},
         },
         schemas={"Item": ITEM, "Err": ERR},
@@ -50,7 +51,7 @@ def spec_redirect():
 
 SPECS = {"cl06": spec, "cl06r": spec_redirect}
 OP_PKG = {"redirect_declared": "cl06r"}
-OPS = ["only2xx", "declared_errors", "default_nocontent", "default_content", "no_content", "redirect_declared", "two_success"]
+OPS = ["only2xx", "declared_unregistered", "declared_errors", "default_nocontent", "default_content", "no_content", "redirect_declared", "two_success"]
 
 
 def root_dir():
@@ -58,14 +59,29 @@ def root_dir():
 
 
 class Resp:
-    def __init__(self, status):
+    """Stand-in for httpx.Response: status (symbolic), text/content (empty or not), and httpx's status predicates."""
+
+    def __init__(self, status, empty=False):
         self.status_code = status
-        self.text = "body"
-        self.content = b"{}"
+        self.text = "" if empty else "body"
+        self.content = b"" if empty else b"{}"
         self.headers = {"content-type": "application/json"}
 
     def json(self):
         return dict(BODY)
+
+    # httpx.Response semantics (httpx/_models.py): is_informational 1xx, is_success 2xx, is_redirect 3xx,
+    # is_client_error 4xx, is_server_error 5xx, is_error 4xx-5xx
+    def _rng(self, lo, hi):
+        st = self.status_code
+        return (lo <= st) & (st <= hi) if not isinstance(st, int) else lo <= st <= hi
+
+    is_informational = property(lambda self: self._rng(100, 199))
+    is_success = property(lambda self: self._rng(200, 299))
+    is_redirect = property(lambda self: self._rng(300, 399))
+    is_client_error = property(lambda self: self._rng(400, 499))
+    is_server_error = property(lambda self: self._rng(500, 599))
+    is_error = property(lambda self: self._rng(400, 599))
 
 
 def drive(coro):
@@ -95,12 +111,12 @@ def pkgs(instrumented, PKG="cl06"):
     return _PK[key]
 
 
-def call(instrumented, op, status, bundled):
+def call(instrumented, op, status, bundled, empty=False):
     ep, exc, tr = pkgs(instrumented, OP_PKG.get(op, "cl06"))
 
     class Stub:
         async def request(self, method, url, **kw):
-            return Resp(status)
+            return Resp(status, empty)
 
     if bundled:
         t = tr.HttpxTransport(base_url="http://x")
@@ -133,13 +149,13 @@ class StatusOb(Obligation):
         self.bounds = {"status": "symbolic int 100..599", "operation": op, "transport": "bundled HttpxTransport" if bundled else "custom transport returning non-2xx unraised"}
 
     def make_inputs(self, e):
-        return {"status": mk_sym_int("status", 100, 599)}
+        return {"status": mk_sym_int("status", 100, 599), "empty_body": bool(e.choose(2, "empty_body"))}
 
     def run_sym(self, inp):
-        return call(True, self.op, inp["status"], self.bundled)
+        return call(True, self.op, inp["status"], self.bundled, inp["empty_body"])
 
     def run_real(self, inp):
-        return call(False, self.op, inp["status"], self.bundled)
+        return call(False, self.op, inp["status"], self.bundled, inp["empty_body"])
 
     def prop(self, inp, r):
         st = inp["status"]
@@ -182,7 +198,7 @@ def run(tier, rep, only=None):
     rep.bounds = {"status": "one symbolic int over 100..599", "operation_templates": OPS,
                   "transports": ["custom (returns non-2xx unraised)", "bundled HttpxTransport"]}
     rep.stubs = ["httpx.AsyncClient.request / custom transport -> stub returning a response with the symbolic status and a fixed conforming JSON body"]
-    rep.assumptions = ["template family T_err of 7 operations stands for the declared-status shapes (only 2xx; 404+500; default without/with content; 204 only; 302+418; several 2xx + 409/503)"]
+    rep.assumptions = ["template family T_err of 8 operations stands for the declared-status shapes (only 2xx; 404+500; default without/with content; 204 only; 302+418; several 2xx + 409/503; declared codes outside the well-known registry 499/520/599); response body empty or non-empty"]
     import subprocess
 
     bad = set()
